@@ -1831,12 +1831,14 @@ var Driver = core.Driver[Input, Observation]{
 			"start (120 quick; class CCtl) and operator-start (40 quick; class COp), tags start:*: WHERE ScheduleManager.Start() (operation SmStart -> OSmStart, the REAL Start(), at most once per case) falls - before it 0-6 operations Add / Remove (85% of a pair registered by hand: entry ids with gaps) / Enable / Disable (operator: the start-up EnableScheduleBindings tasks, a hook disabled and maybe enabled again, a pair added and removed by hand), after it Remove (mostly of a registered pair) / Add / Disable / Enable / TickAll / Tick / Fire / Start+Drain; " +
 			"the crontabs of these cases are due once a year, 3-9 months from the day of the run, in 8 spellings each (the running scheduler must never fire by the clock; Start() is not called should a crontab be due within 30 days); after Start() the cron entries are those of the runner the manager holds THEN, listed by entry id, and ticks run THEIR jobs; " +
 			"predicate P_start / P_op_start = P / P_op and: a TickAll while nothing waits delivers every parsable crontab with a registered id exactly once and no other string; exhaustive-start (thorough: every sequence of <=5 operations containing one SmStart over Add/Remove of 2 crontabs x 1 id, Enable/Disable of a hook on one of them, SmStart, TickAll); " +
+			"queues (70 quick; case class CQ, tags class:queues, queues:*; file queues.go): WHERE the tasks of a firing end up - everything of the operator class, and the operator's REAL TaskQueueSet (\"main\" made by the real bootstrapMainQueue, its start-up tasks taken out; one queue per queue name of the loaded schedule bindings made as initAndStartHookQueues makes them, NOT started) and its REAL ManagerEventsHandler.Start() loop: every string handled (Tick / TickAll / Fire) is received by that loop (its schedule channel is a channel of the harness: proxy ScheduleManager written into the handler's unexported field; the next call of Ch() tells that the loop is back at its select), which calls the schedule event handler and moves the tasks into tqs.Queues; after every operation the CONTENTS of every queue are read and compared with the model's map queue -> list (C11_QModel) and judged by C11_QSpec.Q: every queue holds what it held before followed, firing after firing, by exactly the tasks of the enabled bindings with the fired crontab whose queue it is; " +
+			"1-4 hooks with 1-3 bindings, 80% of the bindings on ONE crontab string, queue layouts all-main / one-each (one binding per queue, main used or not) / pair-shares (two bindings of one or two hooks share a named queue, the others have their own) / main-and-named / random over 4 queues; histories: hooks enabled one after the other with firings in between, then firings / Disable / Enable / raw Add, Remove; exhaustive-queues (thorough: every sequence of <=5 operations over Enable 0,1 / Disable 0 / Tick 0 / TickAll / Fire on two hooks with three bindings of one crontab in three queues); " +
 			"non-trivial = >=3 operations of >=2 kinds with a cron entry registered at some point; distinct = distinct input text"},
 	Gen: Gen, Run: Run, Render: Render, PerShard: 200, Workers: 8, CaseTimout: 10 * time.Second,
 	Extra: func() map[string]any {
 		return map[string]any{
-			"exhaustive_scope": "thorough: sum_{k=1..5} 10^k = 111110 operation sequences (controllers), 2 x sum_{k=1..5} 7^k = 2 x 19607 (operator: distinct names / all bindings unnamed)",
-			"not_driven":       "the cron library's clock and its `go e.Job.Run()` (entries are fired by running their real job closure directly, alone or several together in goroutines started by the harness), the events handler's receive loop (the harness is the consumer of Ch()), class CCtl replays hook.Manager.HandleScheduleEvent's loop on the real controllers; class COp (operator) calls the schedule event handler the operator registered with its ManagerEventsHandler (read by reflection: unexported field scheduleCb), which runs the real hook.Manager.HandleScheduleEvent and the task construction of operator.go:163-191; the queues the tasks would be appended to are not driven (the queue name carried by each task is compared)",
+			"exhaustive_scope": "thorough: sum_{k=1..5} 10^k = 111110 operation sequences (controllers), 2 x sum_{k=1..5} 7^k = 2 x 19607 (operator: distinct names / all bindings unnamed), sum_{k=1..5} 6^k = 9330 (queues)",
+			"not_driven":       "the cron library's clock and its `go e.Job.Run()` (entries are fired by running their real job closure directly, alone or several together in goroutines started by the harness), the events handler's receive loop (the harness is the consumer of Ch()), class CCtl replays hook.Manager.HandleScheduleEvent's loop on the real controllers; class COp (operator) calls the schedule event handler the operator registered with its ManagerEventsHandler (read by reflection: unexported field scheduleCb), which runs the real hook.Manager.HandleScheduleEvent and the task construction of operator.go:163-191; in the classes CCtl / COp the queues the tasks would be appended to are not driven (the queue name carried by each task is compared); class CQ (queues) drives the real ManagerEventsHandler.Start() loop and the real TaskQueueSet: there the loop's schedule channel is a channel of the harness (the handler's scheduleManager field replaced by a proxy delegating to the real manager), the queues are created by the harness the way initAndStartHookQueues creates them but not started (no worker takes tasks out), kubernetes events are not sent",
 		}
 	},
 }
